@@ -287,6 +287,8 @@ fn structural_mutations(syms: &[Sym], style: u8, f: &mut dyn FnMut(Mutated) -> b
             ("unknown-member-truncated-utf8", &b",\"zz\":[\"\xe2\x82\"]"[..]),
             ("unknown-member-surrogate", &b",\"zz\":\"\xed\xa0\x80\""[..]),
             ("unknown-member-overlong", &b",\"zz\":\"\xc0\xaf\""[..]),
+            ("unknown-member-number-out-of-range", &b",\"zz\":222222222e2222232222"[..]),
+            ("unknown-member-lone-surrogate", &b",\"zz\":\"\\ud800\""[..]),
         ] {
             let mut one = plain[mi].clone();
             let Some(at) = one.iter().rposition(|b| *b == b'}') else { continue };
